@@ -811,6 +811,9 @@ func c02GenCase(rt *rapid.T) c02Case {
 			}
 			benign := risky[q.Rt] >= c02RiskyBudget
 			q.P = c02GenProg(rt, t, q.Cn, benign)
+			if benign && c02MakePlan(c, id, q).risky {
+				q.Cn = -1 // a cancel at the arrival instant would make even an immediate handler a possible 499
+			}
 			if c02MakePlan(c, id, q).risky {
 				risky[q.Rt]++
 			}
